@@ -102,6 +102,9 @@ MUTANTS = [
  ("M32-stop-closes-nil-channel", "C09", "interp.go",
   "\tif interp.done != nil {\n\t\t// (nil: already closed on behalf of a concurrent evaluation, which\n\t\t// shares the channel and has been cancelled too.)\n\t\tclose(interp.done)", "\tif true {\n\t\tclose(interp.done)",
   "stop() closes the cancellation channel even when a concurrent evaluation's stop() has already closed and dropped it (re-introduces the defect repaired by 61d331f)"),
+ ("M33-enter-call-needs-parent-debug-data", "C19", "debugger.go",
+  "\tfor a := f.anc; a != nil; a = a.anc {\n\t\tif a.debug != nil {\n\t\t\tf.debug.g = a.debug.g\n\t\t\tbreak\n\t\t}\n\t}\n", "\tf.debug.g = f.anc.debug.g\n",
+  "enterCall reads the goroutine from the enclosing frame only (re-introduces the defect repaired by the fix for closures created before the session)"),
  ("M29-done-channel-per-evaluation", "C09", "interp.go",
   "\tif interp.done == nil {\n\t\tinterp.done = make(chan struct{})\n\t}\n", "\tinterp.done = make(chan struct{})\n",
   "every WithContext entry point installs a fresh done channel again (re-introduces the defect repaired by ff0a250)"),
